@@ -49,24 +49,24 @@ type LoopContract struct {
 }
 
 type FuncContract struct {
-	Key      string
-	Requires []*Clause
-	Ensures  []*Clause
-	Loops    map[int]*LoopContract
-	Trusted  bool
-	Pure     bool
-	NoReturn bool
-	Inline   bool
-	Modifies []string
-	Iterates *Clause          // callee: "iterates <map expr>": calls its function argument on every key of the map in ascending key order
-	Visits   map[int][]*Clause // caller: "visit K invariant expr": invariant of the K-th iterating call in this function
+	Key        string
+	Requires   []*Clause
+	Ensures    []*Clause
+	Loops      map[int]*LoopContract
+	Trusted    bool
+	Pure       bool
+	NoReturn   bool
+	Inline     bool
+	Modifies   []string
+	Iterates   *Clause           // callee: "iterates <map expr>": calls its function argument on every key of the map in ascending key order
+	Visits     map[int][]*Clause // caller: "visit K invariant expr": invariant of the K-th iterating call in this function
 	Implements string
-	After    []*AfterClause
-	Reveal   []string
-	Frames   []*FrameClause
-	Props    []string
-	File     string
-	Line     int
+	After      []*AfterClause
+	Reveal     []string
+	Frames     []*FrameClause
+	Props      []string
+	File       string
+	Line       int
 	// Cases: optional per-case split conditions (verified separately)
 	Cases []*Clause
 	// Uses: lemma invocations available as hints: "use name(args)" at function entry
